@@ -14,6 +14,8 @@ def run(run, model):
     run.do(rec.chain_and_lazy_compare, model, "C07.chain", "C07.lazy")
     run.do(rec.lazy_ifexp, model, "C07.lazy")
     run.do(rec.formatted_value, model, "C07.fstring-format")
+    # building the message of one contract leaves the mapping of the call as it is (later groups / postconditions use it)
+    run.do(msg.hide_placeholders, model, "C07.mapping-untouched")
     run.do(rec.supported_forms, model)
     run.do(rec.dispatch_closed, model)
     run.do(rec.truth_protocol, model)
